@@ -9,7 +9,8 @@ stdout: last line = JSON list of observations, one per case:
   valid, full, mainr, subs   the oracle the model needs, measured on the real validate / serialiser
            BEFORE save is called and before the call-counting fault is installed
   alias    the target path was given in a non-normal form (case["via"]: ./name, ../out/name, doubled slash,
-           through a symbolic link)
+           through a symbolic link); the other spellings (~/out/name with HOME = scratch root, file://<dir>/name,
+           a Path_fc object with cwd=<dir> or created before an os.chdir) resolve to the normal form
   texts    text-id -> text (id 0 is the empty text)
 Faults are injected from this process only (values put into cfg, a patched jsonargparse._core.dump_using_format,
 a removed source file); nothing in the implementation tree is touched.
@@ -28,7 +29,7 @@ from jsonargparse import ActionJsonnet, ActionParser, ArgumentParser, Namespace,
 from jsonargparse._common import parser_context
 from jsonargparse._loaders_dumpers import dump_using_format
 from jsonargparse._util import PathError
-from jsonargparse.typing import Path_fr
+from jsonargparse.typing import Path_fc, Path_fr
 
 
 class Unserialisable:
@@ -128,6 +129,7 @@ def snapshot(d, intern):
 def run_case(case):
     root = os.path.realpath(tempfile.mkdtemp(prefix="jv_c18_"))  # "plain" targets must be in normal form
     cwd0 = os.getcwd()
+    home0 = os.environ.get("HOME")
     texts = [""]
     index = {"": 0}
 
@@ -256,6 +258,19 @@ def run_case(case):
         elif via == "link":
             os.symlink(outd, os.path.join(root, "lnk"))
             target = os.path.join(root, "lnk", case["main"])
+        # spellings that the library's Path resolves but that are not themselves a path the OS would find from the
+        # process working directory: the file meant is always <outd>/<main>
+        elif via == "tilde":
+            os.environ["HOME"] = root  # restored below
+            target = "~/out/" + case["main"]
+        elif via == "fileurl":
+            target = "file://" + os.path.join(outd, case["main"])
+        elif via == "pathobj":  # what a Path_fc option parsed from a config file in another directory looks like
+            target = Path_fc(case["main"], cwd=outd)
+        elif via == "chdir":  # a Path created while the process was in the target directory, used after leaving it
+            os.chdir(outd)
+            target = Path_fc(case["main"])
+            os.chdir(cwd0)
         else:
             raise SystemExit("unknown via %r" % via)
         before = snapshot(outd, intern)
@@ -311,9 +326,13 @@ def run_case(case):
                 exc = "reparse:" + type(e).__name__
         return {"res": res, "exc": exc, "before": before, "after": after, "reparse": reparse, "valid": valid,
                 "full": full, "mainr": mainr, "subs": sub_out, "texts": texts, "calls": calls[0],
-                "alias": bool(case["dir_ok"] and via != "plain")}
+                "alias": bool(case["dir_ok"] and via in ("dot", "dotdot", "slash", "link"))}
     finally:
         os.chdir(cwd0)
+        if home0 is None:
+            os.environ.pop("HOME", None)
+        else:
+            os.environ["HOME"] = home0
         shutil.rmtree(root, ignore_errors=True)
 
 
